@@ -55,6 +55,9 @@ class SimWorld:
         self.monitor_violations = []
         self.notes = {}
         self.on_event = None     # f(kind, res_name, request id, now, data) for model-driven checks
+        self.events = {}         # manual events by name (C18)
+        self.labels = {}         # id(event) -> member label (events pinned in self.pinned)
+        self.pinned = []
 
     def log(self, actor, ev, *data):
         seam = self.seam
@@ -121,6 +124,8 @@ class SimWorld:
     def process(self, spec):
         name = spec["name"]
         self.log(name, "start")
+        if self.scenario.get("mode") == "events":
+            return (yield from self.event_process(spec))
         try:
             for op in spec.get("ops", ()):
                 yield from self.step(name, op)
@@ -131,6 +136,103 @@ class SimWorld:
             raise
         self.log(name, "end")
         return spec.get("ret")
+
+    # ---- C18: events, conditions, sub-processes, interrupts --------------------------------
+    def label(self, event, text):
+        self.labels[id(event)] = text
+        self.pinned.append(event)
+        event.callbacks.append(lambda ev, text=text: self.log("~cb", "callback", text))
+        return event
+
+    def make_events(self):
+        for name in self.scenario.get("events", ()):
+            self.events[name] = self.label(self.env.event(), "ev:" + name)
+
+    def member(self, spec):
+        env = self.env
+        if "t" in spec:
+            return self.label(env.timeout(spec["t"], spec.get("v")), "t:%r" % spec["t"])
+        if "ev" in spec:
+            return self.events[spec["ev"]]
+        if "proc" in spec:
+            return self.procs[spec["proc"]]
+        return self.condition(spec["cond"])
+
+    def condition(self, spec):
+        members = [self.member(m) for m in spec["of"]]
+        if spec["kind"] == "all":
+            return self.env.all_of(members)
+        return self.env.any_of(members)
+
+    def event_process(self, spec):
+        name = spec["name"]
+        for op in spec.get("ops", ()):
+            try:
+                yield from self.event_step(name, op)
+            except SimInterrupt as err:
+                self.log(name, "interrupted", err.cause)
+        self.log(name, "end")
+        return spec.get("ret")
+
+    def event_step(self, name, op):
+        env = self.env
+        kind = op["op"]
+        if kind == "timeout":
+            value = yield self.label(env.timeout(op["d"], op.get("value")), "t:%r" % op["d"])
+            self.log(name, "timeout-", op["d"], value)
+        elif kind == "native":
+            value = yield (usim.time + op["d"])
+            self.log(name, "native-", op["d"], value)
+        elif kind == "wait":
+            try:
+                value = yield self.events[op["ev"]]
+            except SimProgError as err:
+                self.log(name, "wait!", op["ev"], err.serial)
+            else:
+                self.log(name, "wait-", op["ev"], value)
+        elif kind in ("succeed", "fail"):
+            event = self.events[op["ev"]]
+            try:
+                if kind == "succeed":
+                    event.succeed(op.get("value"))
+                else:
+                    event.fail(SimProgError(op["serial"]))
+            except RuntimeError:
+                self.log(name, "retrigger-error", op["ev"])
+        elif kind == "cond":
+            try:
+                result = yield self.condition(op)
+            except SimProgError as err:
+                self.log(name, "cond!", op["id"], err.serial)
+            else:
+                pairs = [(self.labels.get(id(ev), self._proc_label(ev)), value)
+                         for ev, value in result.items()]
+                self.log(name, "cond-", op["id"], tuple(sorted(pairs, key=repr)))
+        elif kind == "spawn":
+            spec = op["proc"]
+            proc = env.process(self.process(spec))
+            self.procs[spec["name"]] = proc
+            self.proc_name[id(proc)] = spec["name"]
+        elif kind == "join":
+            try:
+                value = yield self.procs[op["proc"]]
+            except SimProgError as err:
+                self.log(name, "join!", op["proc"], err.serial)
+            else:
+                self.log(name, "join-", op["proc"], value)
+        elif kind == "interrupt":
+            target = self.procs.get(op["proc"])
+            if target is not None:
+                target.interrupt(op.get("cause"))
+        elif kind == "raise":
+            self.log(name, "raise", op["serial"])
+            raise SimProgError(op["serial"])
+        else:
+            raise ValueError(kind)
+
+    def _proc_label(self, event):
+        name = self.proc_name.get(id(event))
+        return "proc:%s" % name if name is not None else "?"
 
     def cause(self, cause):
         if isinstance(cause, Preempted):
@@ -261,19 +363,26 @@ def execute(case, setup=None):
         try:
             world.env = Environment(initial_time=scenario.get("initial_time", 0))
             world.make_resources()
+            world.make_events()
             if setup is not None:
                 setup(world)
             world.start_processes()
             until = scenario.get("until")
-            world.env.run(until=until)
-            outcome = ("ok",)
+            if isinstance(until, dict):
+                until = world.events[until["ev"]] if "ev" in until \
+                    else world.procs[until["proc"]]
+            value = world.env.run(until=until)
+            outcome = ("ok",) if value is None else ("value", value)
             seam.finish()
         except HarnessAbort as err:
             outcome = ("abort", type(err).__name__, str(err))
         except BaseException as err:
             if isinstance(err, KeyboardInterrupt):
                 raise
-            outcome = ("raise", (type(err).__name__, str(err)[:80]))
+            if isinstance(err, SimProgError):
+                outcome = ("raise", ("SimProgError", err.serial))
+            else:
+                outcome = ("raise", (type(err).__name__, str(err)[:80]))
             raised = err
     record.outcome = outcome
     record.raised = raised
@@ -304,6 +413,8 @@ def cleanup(record):
         world.seam.pins.clear()
         world.seam.models.clear()
         world.requests.clear()
+        world.events.clear()
+        world.pinned.clear()
         world.procs.clear()
         world.res.clear()
         world.env = None
